@@ -50,6 +50,7 @@ func replayCmd(verifDir, repoDir, path string) int {
 		return 2
 	}
 	curSimProcs = rp.SimProcs
+	curSimEpoch = rp.SimEpoch
 	if rp.Variant != "" {
 		// the same knobs / hash functions (by name, file, value) must still exist in the current tree
 		var ks []instr.Knob
